@@ -10,7 +10,7 @@ from . import store as ST
 from .store import Row, same_rows_as_sets, api_rows, show_rows, row_of_event
 
 PROP = "C02"
-OPS = ["insert_one", "insert_many_new", "insert_many_upsert", "insert_many_upsert_single", "replace", "replace_last", "delete_live", "delete_missing", "reads"]
+OPS = ["insert_one", "insert_many_new", "insert_many_upsert", "insert_many_upsert_single", "replace", "replace_last", "delete_live", "delete_missing", "delete_foreign_id", "reads"]
 
 
 def setup(x, bk, n, nother=1):
@@ -130,6 +130,16 @@ def h_op(x, bk, op, n):
             ret = b.delete(x.wrap(mid))
             obl.append(("delete-of-unknown-id-reports-nothing", not bool(ret)))
             frame(be, ds, B, A, obl)
+        elif op == "delete_foreign_id":
+            # the id of an event of another bucket never existed in this bucket: nothing may happen
+            ret = b.delete(x.wrap(B[0].id))
+            if bk != "memory":
+                obl.append(("delete-of-foreign-id-reports-nothing", not bool(ret)))
+                frame(be, ds, B, A, obl)
+            else:
+                x.assume(And([B[0].id != r.id for r in A]))
+                obl.append(("delete-of-foreign-id-reports-nothing", not bool(ret)))
+                frame(be, ds, B, A, obl)
         elif op == "reads":
             frame(be, ds, B, A, obl)
             one = b.get(limit=1)
